@@ -21,8 +21,14 @@ pub trait FieldTy: Sized {
     fn struct_leaves() -> Vec<Leaf> {
         Vec::new()
     }
-    fn from_vals(vals: &mut std::slice::Iter<'_, Val>) -> Self;
-    fn to_vals(&self, out: &mut Vec<Val>);
+    /// the model of a family struct (used when the struct is a nested UDT field)
+    fn struct_model() -> Option<Model> {
+        None
+    }
+    /// `flat`: the field is `#[scylla(flatten)]` - the struct's leaves are taken inline from `vals`;
+    /// otherwise a struct-typed field is a nested UDT and takes one `Val::Udt` (or `Val::Null`).
+    fn from_vals(vals: &mut std::slice::Iter<'_, Val>, flat: bool) -> Self;
+    fn to_vals(&self, out: &mut Vec<Val>, flat: bool);
 }
 
 macro_rules! cell_ty {
@@ -31,13 +37,13 @@ macro_rules! cell_ty {
             fn cell() -> Option<(Kind, bool)> {
                 Some((Kind::$kind, false))
             }
-            fn from_vals(vals: &mut std::slice::Iter<'_, Val>) -> Self {
+            fn from_vals(vals: &mut std::slice::Iter<'_, Val>, _flat: bool) -> Self {
                 match vals.next() {
                     Some(Val::$kind($v)) => $from,
                     other => panic!("harness: {} leaf fed with {:?}", stringify!($t), other),
                 }
             }
-            fn to_vals(&self, out: &mut Vec<Val>) {
+            fn to_vals(&self, out: &mut Vec<Val>, _flat: bool) {
                 let $s = self;
                 out.push(Val::$kind($to));
             }
@@ -46,14 +52,14 @@ macro_rules! cell_ty {
             fn cell() -> Option<(Kind, bool)> {
                 Some((Kind::$kind, true))
             }
-            fn from_vals(vals: &mut std::slice::Iter<'_, Val>) -> Self {
+            fn from_vals(vals: &mut std::slice::Iter<'_, Val>, _flat: bool) -> Self {
                 match vals.next() {
                     Some(Val::Null) => None,
                     Some(Val::$kind($v)) => Some($from),
                     other => panic!("harness: Option<{}> leaf fed with {:?}", stringify!($t), other),
                 }
             }
-            fn to_vals(&self, out: &mut Vec<Val>) {
+            fn to_vals(&self, out: &mut Vec<Val>, _flat: bool) {
                 match self {
                     None => out.push(Val::Null),
                     Some($s) => out.push(Val::$kind($to)),
@@ -87,15 +93,28 @@ impl<T> Out<T> {
     }
 }
 
-fn guard<T>(f: impl FnOnce() -> Out<T>) -> Out<T> {
+pub fn guard<T>(f: impl FnOnce() -> Out<T>) -> Out<T> {
     match vcore::catch(AssertUnwindSafe(f)) {
         Ok(o) => o,
         Err(p) => Out::Panic(format!("{p} at {}", vcore::last_panic_location())),
     }
 }
 
-pub fn column_type(kind: Kind) -> ColumnType<'static> {
-    match kind {
+/// FNV of the field names: decides `frozen` so that both settings occur (the derives must not care).
+fn frozen_for(db: &[DbField]) -> bool {
+    vcore::fnv64(db.iter().map(|f| f.name.as_str()).collect::<Vec<_>>().join(",").as_bytes()) & 1 == 1
+}
+
+pub fn column_type(f: &DbField) -> ColumnType<'static> {
+    match f.kind {
+        Kind::Udt => ColumnType::UserDefinedType {
+            frozen: !frozen_for(&f.fields),
+            definition: Arc::new(UserDefinedType {
+                name: "nested".into(),
+                keyspace: "ks".into(),
+                field_types: f.fields.iter().map(|g| (g.name.clone().into(), column_type(g))).collect(),
+            }),
+        },
         Kind::Int => ColumnType::Native(NativeType::Int),
         Kind::Text => ColumnType::Native(NativeType::Text),
         Kind::Boolean => ColumnType::Native(NativeType::Boolean),
@@ -107,22 +126,22 @@ pub fn column_type(kind: Kind) -> ColumnType<'static> {
 
 pub fn udt_type(db: &[DbField]) -> ColumnType<'static> {
     ColumnType::UserDefinedType {
-        frozen: false,
+        frozen: frozen_for(db),
         definition: Arc::new(UserDefinedType {
             name: "udt".into(),
             keyspace: "ks".into(),
-            field_types: db.iter().map(|f| (f.name.clone().into(), column_type(f.kind))).collect(),
+            field_types: db.iter().map(|f| (f.name.clone().into(), column_type(f))).collect(),
         }),
     }
 }
 
 pub fn column_specs(db: &[DbField]) -> Vec<ColumnSpec<'static>> {
-    db.iter().map(|f| ColumnSpec::owned(f.name.clone(), column_type(f.kind), TableSpec::owned("ks".into(), "tbl".into()))).collect()
+    db.iter().map(|f| ColumnSpec::owned(f.name.clone(), column_type(f), TableSpec::owned("ks".into(), "tbl".into()))).collect()
 }
 
 /// SerializeValue through a CellWriter; returns the UDT *body* (the outer length prefix is verified and stripped).
 pub fn ser_value_drv<T: FieldTy + SerializeValue>(vals: &[Val], typ: &ColumnType<'static>) -> Out<Vec<u8>> {
-    let t = T::from_vals(&mut vals.iter());
+    let t = T::from_vals(&mut vals.iter(), true);
     guard(|| {
         let mut buf = Vec::new();
         let w = CellWriter::new(&mut buf);
@@ -142,7 +161,8 @@ pub fn ser_value_drv<T: FieldTy + SerializeValue>(vals: &[Val], typ: &ColumnType
     })
 }
 
-pub fn de_value_drv<T>(typ: &ColumnType<'static>, body: &Bytes) -> Out<Vec<Val>>
+/// `body` None = the UDT value itself is null.
+pub fn de_value_drv<T>(typ: &ColumnType<'static>, body: Option<&Bytes>) -> Out<Vec<Val>>
 where
     T: FieldTy + for<'f, 'm> DeserializeValue<'f, 'm>,
 {
@@ -150,10 +170,10 @@ where
         if let Err(e) = <T as DeserializeValue<'_, '_>>::type_check(typ) {
             return Out::Err("typeck", e.to_string());
         }
-        match <T as DeserializeValue<'_, '_>>::deserialize(typ, Some(FrameSlice::new(body))) {
+        match <T as DeserializeValue<'_, '_>>::deserialize(typ, body.map(FrameSlice::new)) {
             Ok(t) => {
                 let mut out = Vec::new();
-                t.to_vals(&mut out);
+                t.to_vals(&mut out, true);
                 Out::Ok(out)
             }
             Err(e) => Out::Err("deser", e.to_string()),
@@ -162,16 +182,44 @@ where
 }
 
 pub fn ser_row_drv<T: FieldTy + SerializeRow>(vals: &[Val], specs: &[ColumnSpec<'static>]) -> Out<Vec<u8>> {
-    let t = T::from_vals(&mut vals.iter());
+    let t = T::from_vals(&mut vals.iter(), true);
     guard(|| {
         let ctx = RowSerializationContext::from_specs(specs);
         let mut buf = Vec::new();
         let mut w = RowWriter::new(&mut buf);
         match t.serialize(&ctx, &mut w) {
-            Ok(()) => Out::Ok(buf),
+            Ok(()) => {
+                let count = w.value_count();
+                match check_from_serializable(&t, &ctx, &buf, count) {
+                    Ok(()) => Out::Ok(buf),
+                    Err(why) => Out::Err("framing", why),
+                }
+            }
             Err(e) => Out::Err("ser", e.to_string()),
         }
     })
+}
+
+/// The other public way to serialize a row: `SerializedValues::from_serializable`. Must hold the same cells.
+pub fn check_from_serializable<T: SerializeRow>(t: &T, ctx: &RowSerializationContext<'_>, direct: &[u8], direct_count: usize) -> Result<(), String> {
+    use scylla_cql::frame::types::RawValue;
+    let sv = scylla_cql::serialize::row::SerializedValues::from_serializable(ctx, t).map_err(|e| format!("serialize() succeeded but SerializedValues::from_serializable failed: {e}"))?;
+    let mut again = Vec::new();
+    for v in sv.iter() {
+        match v {
+            RawValue::Null => cqlref::binder::write_cell(&mut again, None),
+            RawValue::Unset => return Err("from_serializable produced an unset value".into()),
+            RawValue::Value(b) => cqlref::binder::write_cell(&mut again, Some(b)),
+        }
+    }
+    if again != direct || sv.element_count() as usize != direct_count {
+        return Err(format!("SerializedValues::from_serializable holds {} values / {} bytes, direct serialization wrote {} values / {} bytes", sv.element_count(), again.len(), direct_count, direct.len()));
+    }
+    Ok(())
+}
+
+pub fn is_empty_drv<T: FieldTy + SerializeRow>(vals: &[Val]) -> bool {
+    T::from_vals(&mut vals.iter(), true).is_empty()
 }
 
 pub fn de_row_drv<T>(specs: &[ColumnSpec<'static>], body: &Bytes) -> Out<Vec<Val>>
@@ -185,7 +233,7 @@ where
         match <T as DeserializeRow<'_, '_>>::deserialize(ColumnIterator::new(specs, FrameSlice::new(body))) {
             Ok(t) => {
                 let mut out = Vec::new();
-                t.to_vals(&mut out);
+                t.to_vals(&mut out, true);
                 Out::Ok(out)
             }
             Err(e) => Out::Err("deser", e.to_string()),
@@ -194,7 +242,8 @@ where
 }
 
 pub type SerValueFn = fn(&[Val], &ColumnType<'static>) -> Out<Vec<u8>>;
-pub type DeValueFn = fn(&ColumnType<'static>, &Bytes) -> Out<Vec<Val>>;
+pub type DeValueFn = fn(&ColumnType<'static>, Option<&Bytes>) -> Out<Vec<Val>>;
+pub type IsEmptyFn = fn(&[Val]) -> bool;
 pub type SerRowFn = fn(&[Val], &[ColumnSpec<'static>]) -> Out<Vec<u8>>;
 pub type DeRowFn = fn(&[ColumnSpec<'static>], &Bytes) -> Out<Vec<Val>>;
 
@@ -208,6 +257,8 @@ pub struct Entry {
     pub de_value: Option<DeValueFn>,
     pub ser_row: Option<SerRowFn>,
     pub de_row: Option<DeRowFn>,
+    /// SerializeRow::is_empty of a value built from the given leaves
+    pub is_empty: Option<IsEmptyFn>,
 }
 
 // ---- attribute text -> model (single source of truth: the tokens that are also handed to the derive) ----
@@ -266,15 +317,18 @@ pub fn parse_struct_attrs(text: &str) -> (cqlref::binder::Flavor, bool, bool) {
 }
 
 /// Append the leaves one struct field contributes.
-pub fn push_field_leaves(leaves: &mut Vec<Leaf>, rust_name: &str, attr_texts: &[&str], cell: Option<(Kind, bool)>, inner: Vec<Leaf>) {
+pub fn push_field_leaves(leaves: &mut Vec<Leaf>, rust_name: &str, attr_texts: &[&str], cell: Option<(Kind, bool)>, inner: Vec<Leaf>, model: Option<Model>) {
     let a = parse_field_attrs(attr_texts);
     if a.flatten {
         assert!(cell.is_none(), "harness: flatten on a cell field");
         leaves.extend(inner);
         return;
     }
-    let (kind, optional) = cell.expect("harness: struct-typed field without flatten");
+    // a struct-typed field without flatten is a nested UDT (cell() of `Option<Struct>` says (Udt, true))
+    let (kind, optional) = cell.unwrap_or((Kind::Udt, false));
+    let nested = if kind == Kind::Udt { Some(Box::new(model.expect("harness: nested field type without a model"))) } else { None };
     leaves.push(Leaf {
+        nested,
         rust_name: rust_name.to_string(),
         db_name: a.rename.clone().unwrap_or_else(|| rust_name.to_string()),
         kind,
@@ -283,6 +337,10 @@ pub fn push_field_leaves(leaves: &mut Vec<Leaf>, rust_name: &str, attr_texts: &[
         allow_missing: a.allow_missing,
         default_when_null: a.default_when_null,
     });
+}
+
+pub fn is_flat(attr_texts: &[&str]) -> bool {
+    parse_field_attrs(attr_texts).flatten
 }
 
 // ---- JSON for replay artefacts ----
@@ -296,6 +354,7 @@ pub fn val_to_json(v: &Val) -> Value {
         Val::BigInt(x) => json!({"bigint": x.to_string()}),
         Val::Double(bits) => json!({"double_bits": format!("{bits:016x}"), "approx": f64::from_bits(*bits).to_string()}),
         Val::ListInt(xs) => json!({"list": xs}),
+        Val::Udt(vs) => json!({"udt": vs.iter().map(val_to_json).collect::<Vec<_>>()}),
     }
 }
 
@@ -318,6 +377,9 @@ pub fn val_from_json(j: &Value) -> Val {
     if let Some(x) = j.get("double_bits") {
         return Val::Double(u64::from_str_radix(x.as_str().unwrap(), 16).unwrap());
     }
+    if let Some(x) = j.get("udt") {
+        return Val::Udt(x.as_array().unwrap().iter().map(val_from_json).collect());
+    }
     if let Some(x) = j.get("list") {
         return Val::ListInt(x.as_array().unwrap().iter().map(|e| e.as_i64().unwrap() as i32).collect());
     }
@@ -329,6 +391,7 @@ pub fn cell_to_json(c: &Cell) -> Value {
         Cell::Absent => json!("absent"),
         Cell::Null => Value::Null,
         Cell::Value(v) => val_to_json(v),
+        Cell::Udt(cs) => json!({"udt_cells": cs.iter().map(cell_to_json).collect::<Vec<_>>()}),
     }
 }
 
@@ -337,19 +400,21 @@ pub fn cell_from_json(j: &Value) -> Cell {
         Cell::Absent
     } else if j.is_null() {
         Cell::Null
+    } else if let Some(x) = j.get("udt_cells") {
+        Cell::Udt(x.as_array().unwrap().iter().map(cell_from_json).collect())
     } else {
         Cell::Value(val_from_json(j))
     }
 }
 
 pub fn db_to_json(db: &[DbField]) -> Value {
-    Value::Array(db.iter().map(|f| json!([f.name, f.kind.name()])).collect())
+    Value::Array(db.iter().map(|f| if f.kind == Kind::Udt { json!([f.name, f.kind.name(), db_to_json(&f.fields)]) } else { json!([f.name, f.kind.name()]) }).collect())
 }
 
 pub fn db_from_json(j: &Value) -> Vec<DbField> {
     j.as_array()
         .unwrap_or_else(|| vcore::machinery_error("replay case without db list"))
         .iter()
-        .map(|e| DbField { name: e[0].as_str().unwrap().to_string(), kind: Kind::from_name(e[1].as_str().unwrap()).unwrap() })
+        .map(|e| DbField { name: e[0].as_str().unwrap().to_string(), kind: Kind::from_name(e[1].as_str().unwrap()).unwrap(), fields: if e.get(2).is_some_and(|x| x.is_array()) { db_from_json(&e[2]) } else { Vec::new() } })
         .collect()
 }
